@@ -23,6 +23,11 @@
   domain, no number is `-inf`, and the time is not NaN; `validEvent e` is what the `attrs`
   validators of the record enforce.
 
+  First sentence ("graph to ms and back preserves the model"): §4 (one deme; the F6 counterexample;
+  closed instances) and §5 — the composition of C07 and C08 through a bridge between the two ms
+  interpreters, for graphs of constant sizes: `toMs_msSem_bridge`, `ms_roundtrip_sem_partial`,
+  `toMs_output_tame`, `ms_roundtrip_sem_tame`, with the witnesses for the hypotheses that are forced.
+
   Chain printer ↔ parser ↔ source: `parser_arity_matches_printer` (the printer emits as many
   tokens as `Ms.arity` demands), `dest_matches_table`, and `Tables.tables_ms_model_arity` /
   `Tables.tables_ms_model_dest` (`Theorems/TablesMsModel.lean`: `Ms.arity` and the destination
@@ -30,6 +35,8 @@
 -/
 import DemesVerif.Proofs.MsPrint
 import DemesVerif.Proofs.MsRoundTripExamples
+import DemesVerif.Proofs.MsRTExamples
+import DemesVerif.Proofs.MsRTTameExamples
 import DemesVerif.Theorems.TablesMsModel
 namespace Demes.Theorems
 open Demes Demes.Ms Demes.Spec.C09
@@ -225,6 +232,143 @@ theorem ms_roundtrip_branch_migration :
       = (Spec.MsSem.graphSem (inGenerations branchMig) (some ["A", "B"])).toOption :=
   Proofs.MsPrint.ms_roundtrip_branch_migration
 
+/-! ## 5. Graph → ms → graph, by composing C07 and C08 (first sentence; partial)
+
+**The statement at full strength** — for every valid ms-expressible graph `g` and `N0 > 0`,
+`from_ms(to_ms(g, N0), N0)` returns a graph that describes the demography of `g` — is FALSE:
+`ms_roundtrip_pulse1_counterexample` above (F6: a pulse of proportion 1 is printed `-es t d 0.0 -ej …`
+and `from_ms` rejects the command).  What is proved is the composition of
+
+* C07 (`toMs_sem_partial`): the typed command `to_ms` emits, read by the interpreter `C07.msSemG`
+  (typed option records, symbolic growth rates), denotes the demography of `g`;
+* C08 (`fromMs_sem_plain`): the graph `from_ms` builds from a plain command line in the fragment
+  `Tame'` denotes the demography the interpreter `MsSem.msSem` (strings, rational growth rates) gives
+  the command;
+* the **bridge** between the two interpreters (`toMs_msSem_bridge`): on the command `to_ms` prints for
+  a graph of constant sizes, `msSem` of the printed strings is the image under `embedSem` of `msSemG`
+  of the typed records.  A non-zero growth rate `-ln(r)/dt` is a real number that `to_ms` prints as a
+  rounded decimal: the bridge for it needs real analysis and float rounding, hence `ConstSizes`.
+
+"Describes the demography of `g`" is `Spec.C09.SemRefines rs gs` (Spec/C09.lean): `rs` is the observable
+of the returned graph read with "population `k` is `deme{k}`" (`C08.resultSem`), `gs` the observable of
+`g` in generations read with "population `k` is the `k`-th deme" (`MsSem.graphSem`); the same
+populations in the same order, each ending where the graph's deme starts; at EVERY time of a deme's
+lifetime the same size; the same migration rates on the lifetimes; the same lineage movements
+restricted to the lifetimes.  (An ms population exists from time 0, a deme may end before the
+present: nothing is, or can be, said about the returned graph before a deme's `end_time`.) -/
+
+open Demes.Spec.C07 (MsExpressible samplesOk ExactProportions parseCmd msSemG)
+open Demes.Spec.C08 (PlainTokens Tame' resultSem semEquiv)
+open Demes.Spec.MsSem (msSem graphSem)
+open Demes.Proofs.MsRT (roundTripHyps admixture twoEpochs roundTripAgainst refinesAt branchMigSize branchMigRate branchMigTime)
+
+/-- **The bridge (stage 1).**  For a valid ms-expressible graph of constant sizes (`ConstSizes`: every
+epoch has equal start and end sizes, so no `-g` / `-eg` is emitted), `N0 > 0`, well-formed `samples`,
+and a number codec that covers the numbers of the command `to_ms` emits: the typed command reads
+back (`parseCmd`) as a command `cmd` to which the typed interpreter gives a meaning `semG` without
+growth rates; the printed command line is plain (`PlainTokens`, the domain on which argparse and the
+parser of the ms interpreter agree); and the string interpreter gives the printed command the meaning
+`embedSem semG` — the update lists of `semG` evaluated into constant segments, its matrix snapshots
+run-length encoded into the migration step function, its lineage movements unchanged. -/
+theorem toMs_msSem_bridge (c : NumCodec) (sa : Growth → String) {g : Graph} (hv : Spec.validGraph g = true)
+    (hx : MsExpressible g = true) (hcs : ConstSizes g = true) {N0 : Q} (hN : 0 < N0)
+    {samples : Option (List Int)} (hs : samplesOk g samples = true) {toks : List (Tok Growth)}
+    (htoks : toMs g N0 samples = .ok toks) (hc : CodecCovers c toks) :
+    ∃ cmd semG, parseCmd toks = some cmd ∧ msSemG cmd N0 = .ok semG ∧ GrowthFree semG = true
+      ∧ PlainTokens (renderG c sa toks) = true
+      ∧ msSem (renderG c sa toks) N0 = .ok (embedSem semG) :=
+  Proofs.MsRT.toMs_msSem_bridge c sa hv hx hcs hN hs htoks hc
+
+/-- **Graph → ms → graph (stage 2).**  Let `g` be a valid ms-expressible graph of constant sizes whose
+ancestry proportions sum to exactly one (C07's hypothesis), `N0 > 0`, and `c` a number codec that
+covers the numbers of the command `to_ms` emits.  If `from_ms` accepts the printed command (a
+hypothesis: F6) and the command lies in the fragment `Tame'` on which C08 proves the lineage
+movements, then: the printed command has a meaning `sem` under the ms interpreter; the returned graph
+has an observable `rs`, equivalent to `sem` (C08's `semEquiv`); the graph `g` has an observable `gs`;
+and both `sem` and `rs` describe the demography `gs` of `g` on the lifetimes of its demes. -/
+theorem ms_roundtrip_sem_partial (c : NumCodec) (sa : Growth → String) {g : Graph} (hv : Spec.validGraph g = true)
+    (hx : MsExpressible g = true) (hex : ExactProportions g = true) (hcs : ConstSizes g = true)
+    {N0 : Q} (hN : 0 < N0) {samples : Option (List Int)} (hs : samplesOk g samples = true)
+    {toks : List (Tok Growth)} (htoks : toMs g N0 samples = .ok toks) (hc : CodecCovers c toks)
+    {mg : MsGraph} (hfrom : fromMs (renderG c sa toks) N0 none = .ok mg)
+    {pr : Spec.MsSem.Parsed} (hpr : Spec.MsSem.parse (renderG c sa toks) = .ok pr) (ht : Tame' pr = true) :
+    ∃ sem rs gs, msSem (renderG c sa toks) N0 = .ok sem ∧ resultSem mg = .ok rs
+      ∧ graphSem (inGenerations g) none = .ok gs
+      ∧ semEquiv sem rs = true ∧ SemRefines sem gs ∧ SemRefines rs gs :=
+  Proofs.MsRT.ms_roundtrip_sem_partial c sa hv hx hex hcs hN hs htoks hc hfrom hpr ht
+
+/-- **`Tame'` from a condition on the graph (stage 3a).**  If moreover the pulses are tame
+(`PulsesTame`: every proportion below one; of two pulses at the same time the one listed first does
+not go into the source of the one listed later), the command `to_ms` prints is read by the ms parser
+as a command in `Tame'` … -/
+theorem toMs_output_tame (c : NumCodec) (sa : Growth → String) {g : Graph} (hv : Spec.validGraph g = true)
+    (hx : MsExpressible g = true) (hcs : ConstSizes g = true) (hpt : PulsesTame g = true) {N0 : Q} (hN : 0 < N0)
+    {samples : Option (List Int)} (hs : samplesOk g samples = true) {toks : List (Tok Growth)}
+    (htoks : toMs g N0 samples = .ok toks) (hc : CodecCovers c toks) :
+    ∃ pr, Spec.MsSem.parse (renderG c sa toks) = .ok pr ∧ Tame' pr = true :=
+  Proofs.MsRT.toMs_tame c sa hv hx hcs hpt hN hs htoks hc
+
+/-- … so that the round trip holds with conditions on the graph only, plus acceptance by `from_ms`. -/
+theorem ms_roundtrip_sem_tame (c : NumCodec) (sa : Growth → String) {g : Graph} (hv : Spec.validGraph g = true)
+    (hx : MsExpressible g = true) (hex : ExactProportions g = true) (hcs : ConstSizes g = true)
+    (hpt : PulsesTame g = true)
+    {N0 : Q} (hN : 0 < N0) {samples : Option (List Int)} (hs : samplesOk g samples = true)
+    {toks : List (Tok Growth)} (htoks : toMs g N0 samples = .ok toks) (hc : CodecCovers c toks)
+    {mg : MsGraph} (hfrom : fromMs (renderG c sa toks) N0 none = .ok mg) :
+    ∃ sem rs gs, msSem (renderG c sa toks) N0 = .ok sem ∧ resultSem mg = .ok rs
+      ∧ graphSem (inGenerations g) none = .ok gs
+      ∧ semEquiv sem rs = true ∧ SemRefines sem gs ∧ SemRefines rs gs :=
+  Proofs.MsRT.ms_roundtrip_sem_tame c sa hv hx hex hcs hpt hN hs htoks hc hfrom
+
+/-! ### the hypotheses that are forced, with their witnesses
+
+* acceptance by `from_ms` (F6): `ms_roundtrip_acceptance_counterexample` — every other hypothesis of
+  `ms_roundtrip_sem_partial` holds for `twoDemePulse 1` and `from_ms` rejects the command.  On the
+  graphs of constant sizes tried (size change of an ancestor at its descendant's start, extinct
+  demes, several pulses at one time, pulses at a deme's start, migrations that start late or stop
+  early, three ancestors, years) no other rejection was found; that `from_ms` accepts the `to_ms`
+  output of every `PulsesTame` graph of constant sizes is NOT proved.
+* `PulsesTame` is what `Tame'` needs of the graph (`toMs_tame_needs_pulse_order`,
+  `toMs_tame_needs_pulse_below_one`); `Tame'` itself is the fragment on which C08 proves the lineage
+  movements — sufficient, not necessary (`Proofs.MsRT.tame_not_necessary`: pulses `A → B`, `B → C` at
+  one time are outside `PulsesTame` and `Tame'`, and go round correctly; so did, by evaluation outside
+  the kernel, all 216 triples of same-time pulses between three constant demes).
+* `ExactProportions` is C07's hypothesis (`toMs_sem_counterexample`).
+* `ConstSizes` is forced by the method, not by a counterexample: see the head of this section. -/
+
+/-- **acceptance is a hypothesis (F6).** -/
+theorem ms_roundtrip_acceptance_counterexample :
+    Spec.validGraph (twoDemePulse 1) = true ∧ MsExpressible (twoDemePulse 1) = true
+    ∧ ExactProportions (twoDemePulse 1) = true ∧ ConstSizes (twoDemePulse 1) = true
+    ∧ (match toMs (twoDemePulse 1) 1 none with
+       | .ok toks => decide (CodecCovers tableCodec toks)
+           && (msSem (renderG tableCodec growthStr toks) 1).toOption.isSome
+           && !(fromMs (renderG tableCodec growthStr toks) 1 none).toOption.isSome
+           && ((Spec.MsSem.parse (renderG tableCodec growthStr toks)).toOption.map Tame' == some false)
+       | .error _ => false) = true
+    ∧ PulsesTame (twoDemePulse 1) = false ∧ roundTripHyps (twoDemePulse 1) 1 = false :=
+  Proofs.MsRT.acceptance_counterexample
+
+open Demes.Proofs.MsRT (tameGraph chainPulses fullPulse prOf) in
+/-- the order condition of `PulsesTame` is needed for `Tame'`: pulses `A → B` (listed first), `B → C` at
+one time, every proportion below one: the graph is valid, ms-expressible, of constant sizes, not
+`PulsesTame`, and the command `to_ms` prints (as the ms parser reads it) is outside `Tame'` -/
+theorem toMs_tame_needs_pulse_order :
+    Spec.validGraph (tameGraph chainPulses) = true ∧ MsExpressible (tameGraph chainPulses) = true
+      ∧ ConstSizes (tameGraph chainPulses) = true ∧ PulsesTame (tameGraph chainPulses) = false
+      ∧ Tame' (prOf (Proofs.ToMs.headerOf (inGenerations (tameGraph chainPulses)) none)
+          (Proofs.ToMs.finalEvs (inGenerations (tameGraph chainPulses)) 1)) = false :=
+  Proofs.MsRT.tame_needs_pulse_order
+
+open Demes.Proofs.MsRT (tameGraph chainPulses fullPulse prOf) in
+/-- the "below one" condition of `PulsesTame` is needed for `Tame'` (F6): a pulse of proportion 1 -/
+theorem toMs_tame_needs_pulse_below_one :
+    Spec.validGraph (tameGraph fullPulse) = true ∧ MsExpressible (tameGraph fullPulse) = true
+      ∧ ConstSizes (tameGraph fullPulse) = true ∧ PulsesTame (tameGraph fullPulse) = false
+      ∧ Tame' (prOf (Proofs.ToMs.headerOf (inGenerations (tameGraph fullPulse)) none)
+          (Proofs.ToMs.finalEvs (inGenerations (tameGraph fullPulse)) 1)) = false :=
+  Proofs.MsRT.tame_needs_pulse_below_one
+
 /-! ## Non-vacuity -/
 
 /-- the codec hypothesis is satisfiable: `tableCodec` is a `NumCodec`; these numbers are in its
@@ -288,5 +432,47 @@ example :
 
 /-- the single-deme round trip on a concrete graph (`N = 2`, `N0 = 1`, codec value `2.0`) -/
 example : tableCodec.ok (.fin ((2 : Q) / 1)) := by decide +kernel
+
+/-- **`ms_roundtrip_sem_partial` / `ms_roundtrip_sem_tame`**: every hypothesis (`roundTripHyps`,
+Proofs/MsRTExamples.lean: valid, ms-expressible, exact proportions, constant sizes, `N0 > 0`, `to_ms`
+succeeds, `tableCodec` covers the command, `from_ms` accepts it, the parsed command is in `Tame'`) holds
+for: a branch with a migration; an admixture with two ancestors (three demes); a pulse of proportion
+1/2; a graph in years whose ancestor changes size when its descendant starts, with a migration
+(`-en` and `-ej` at one time); also with `N0 = 2` — and the graph condition `PulsesTame` holds too -/
+example : roundTripHyps branchMig 1 = true := by decide +kernel
+example : roundTripHyps admixture 1 = true := by decide +kernel
+example : roundTripHyps admixture 2 = true := by decide +kernel
+example : roundTripHyps (twoDemePulse (1/2)) 1 = true := by decide +kernel
+example : roundTripHyps twoEpochs 1 = true := by decide +kernel
+example : [branchMig, admixture, twoDemePulse (1/2), twoEpochs].all PulsesTame = true := by decide +kernel
+
+/-- `roundTripHyps` is the list of hypotheses, and the theorem applies -/
+example {g : Graph} {N0 : Q} (h : roundTripHyps g N0 = true) :
+    Spec.validGraph g = true ∧ MsExpressible g = true ∧ ExactProportions g = true ∧ ConstSizes g = true ∧ 0 < N0 ∧
+    ∃ toks mg pr, toMs g N0 none = .ok toks ∧ CodecCovers tableCodec toks
+      ∧ fromMs (renderG tableCodec growthStr toks) N0 none = .ok mg
+      ∧ Spec.MsSem.parse (renderG tableCodec growthStr toks) = .ok pr ∧ Tame' pr = true :=
+  Proofs.MsRT.roundTripHyps_spec h
+example := Proofs.MsRT.roundTrip_of_hyps (g := admixture) (N0 := 1) (by decide +kernel)
+
+/-- the admixture as `to_ms` prints it -/
+example : (toMs admixture 1 none).toOption.map (renderG tableCodec growthStr)
+    = some ["-I", "3", "0", "0", "0", "-n", "1", "2.0", "-n", "3", "0.5", "-es", "1.0", "3", "0.5", "-ej", "1.0", "4", "1",
+            "-ej", "1.0", "3", "2", "-ej", "2.0", "2", "1"] := by decide +kernel
+
+/-- **the conclusion `SemRefines` is not vacuous.**  `refinesAt A gs ts` is the decidable consequence of
+`SemRefines A gs` that samples the sizes at the times `ts`; `roundTripAgainst g g' N0 ts` evaluates it for
+the graph `from_ms` returns for the command of `g`, against the demography of `g'`.  The round trip of
+`branchMig` / `admixture` / `twoEpochs` passes against the graph itself, and the round trip of
+`branchMig` fails against `branchMig` with another size for `A`, another migration rate, or an
+earlier start of `B`. -/
+example {A gs : Spec.MsSem.DemogSem} (h : SemRefines A gs) (ts : List Q) : refinesAt A gs ts = true :=
+  Proofs.MsRT.refinesAt_of_refines h ts
+example : roundTripAgainst branchMig branchMig 1 [0, 1, 2, 4, 5, 100] = some true := by decide +kernel
+example : roundTripAgainst admixture admixture 1 [0, 1, 4, 5, 8, 9] = some true := by decide +kernel
+example : roundTripAgainst twoEpochs twoEpochs 1 [0, 1, 2, 3, 4, 5] = some true := by decide +kernel
+example : [branchMigSize, branchMigRate, branchMigTime].all Spec.validGraph = true
+    ∧ [branchMigSize, branchMigRate, branchMigTime].map (fun g' => roundTripAgainst branchMig g' 1 [0])
+        = [some false, some false, some false] := by decide +kernel
 
 end Demes.Theorems
